@@ -1,10 +1,13 @@
 /-
-  Proofs/C14/Bridge — the model's question reader agrees with the Spec's on NUL-free names;
-  the Spec's truncation scanner implies failure of the model's readers.
+  Proofs/C14/Bridge — the model's (label-wise) question reader agrees with the Spec's on every name the
+  Spec reads, whatever octets the labels contain; the truncation scanners (the Spec's, and its twin without
+  the "no 0x00 in a label" line, `DnsFix.scanNameAny`) imply failure of the model's readers; what happens
+  at a length octet ≥ 64.
 -/
 import Masscanned.Proofs.C14.Name
+import Masscanned.Proofs.DnsFix.Full
 namespace Masscanned.C14
-open Masscanned
+open Masscanned Masscanned.DnsFix
 
 /-- the model's view of a Spec question -/
 def toQ (q : Spec.DQ) : DnsQ := { name := q.name, qtype := q.qtype, qclass := q.qclass }
@@ -13,24 +16,35 @@ theorem rdBE_take2 (r : Bytes) (h : 2 ≤ r.length) : rdBE (r.take 2) = Spec.be1
   have := rdBE_slice2 r 0 (by omega)
   simpa [slice] using this
 
-/-- **Bridge lemma (names).**  If `Spec.readName` reads the name `n` from `p` leaving `r`, and no label
-    byte of `n` is 0x00, the model's question reader splits `p` at the same place. -/
-theorem dnsReadQ_of_readName {fuel : Nat} {p n r : Bytes} (h : Spec.readName fuel [] p = some (n, r))
-    (hn : Spec.labelsNoNul 256 n = true) :
+/-- **Bridge lemma (names).**  If `Spec.readName` reads the name `n` from `p` leaving `r`, the model's
+    question reader splits `p` at the same place — for every name (labels of 1..63 octets of ANY value,
+    at most 255 octets in total). -/
+theorem dnsReadQ_of_readName {fuel : Nat} {p n r : Bytes} (h : Spec.readName fuel [] p = some (n, r)) :
     dnsReadQ [] p =
       if r.length < 4 then none
       else some ({ name := n, qtype := Spec.be16 r 0, qclass := Spec.be16 r 2 }, r.drop 4) := by
   obtain ⟨n', hN, hnn, rfl, hlen⟩ := readName_spec _ _ _ _ _ h
   simp only [List.nil_append] at hnn
   subst hnn
-  obtain ⟨body, rfl, hb⟩ := isName_split hN 256 (by omega) hn
-  rw [List.append_assoc, List.singleton_append, dnsReadQ_body body hb]
+  rw [dnsReadQ_isName hN]
   split
   · rfl
   · rw [rdBE_take2 r (by omega), rdBE_slice2 r 2 (by omega)]; simp
 
-theorem dnsReadQ_of_readQuestion {p r : Bytes} {q : Spec.DQ} (h : Spec.readQuestion p = some (q, r))
-    (hn : Spec.labelsNoNul 256 q.name = true) : dnsReadQ [] p = some (toQ q, r) := by
+/-- the record skipper likewise -/
+theorem dnsSkipRR_of_readName {fuel : Nat} {p n r : Bytes} (h : Spec.readName fuel [] p = some (n, r)) :
+    dnsSkipRR p =
+      if r.length < 10 then none
+      else if (r.drop 10).length < Spec.be16 r 8 then none
+      else some ((r.drop 10).drop (Spec.be16 r 8)) := by
+  obtain ⟨n', hN, _, rfl, _⟩ := readName_spec _ _ _ _ _ h
+  rw [dnsSkipRR_isName hN]
+  split
+  · rfl
+  · rw [rdBE_slice2 r 8 (by omega)]
+
+theorem dnsReadQ_of_readQuestion {p r : Bytes} {q : Spec.DQ} (h : Spec.readQuestion p = some (q, r)) :
+    dnsReadQ [] p = some (toQ q, r) := by
   unfold Spec.readQuestion at h
   split at h
   · cases h
@@ -40,22 +54,21 @@ theorem dnsReadQ_of_readQuestion {p r : Bytes} {q : Spec.DQ} (h : Spec.readQuest
     · rename_i hl
       simp only [Option.some.injEq, Prod.mk.injEq] at h
       obtain ⟨rfl, rfl⟩ := h
-      rw [dnsReadQ_of_readName hr hn, if_neg hl]
+      rw [dnsReadQ_of_readName hr, if_neg hl]
       rfl
 
 /-- **Bridge lemma (question sections).** -/
 theorem dnsReadQs_of_readQuestions : ∀ (k : Nat) (p : Bytes) (qs : List Spec.DQ) (r : Bytes),
-    Spec.readQuestions k p = some (qs, r) → (∀ q ∈ qs, Spec.labelsNoNul 256 q.name = true) →
-    dnsReadQs k p = some (qs.map toQ, r) := by
+    Spec.readQuestions k p = some (qs, r) → dnsReadQs k p = some (qs.map toQ, r) := by
   intro k
   induction k with
   | zero =>
-    intro p qs r h _
+    intro p qs r h
     simp only [Spec.readQuestions, Option.some.injEq, Prod.mk.injEq] at h
     obtain ⟨rfl, rfl⟩ := h
     rfl
   | succ k ih =>
-    intro p qs r h hn
+    intro p qs r h
     unfold Spec.readQuestions at h
     split at h
     · cases h
@@ -66,10 +79,50 @@ theorem dnsReadQs_of_readQuestions : ∀ (k : Nat) (p : Bytes) (qs : List Spec.D
         simp only [Option.some.injEq, Prod.mk.injEq] at h
         obtain ⟨rfl, rfl⟩ := h
         unfold dnsReadQs
-        rw [dnsReadQ_of_readQuestion hq (hn q (by simp))]
+        rw [dnsReadQ_of_readQuestion hq]
         simp only
-        rw [ih _ _ _ hqs (fun x hx => hn x (by simp [hx]))]
+        rw [ih _ _ _ hqs]
         rfl
+
+/-! ### length octets ≥ 64
+
+  The Spec (RFC 1035: the two top bits of a length octet are reserved) rejects them; the repaired reader
+  treats ANY non-zero octet as a plain label length.  So a message with such an octet in a name position
+  is outside all hypotheses of C14 (`Spec.parseDns` fails, `Spec.scanName` says `.bad`): C14 neither
+  demands an answer nor silence for it. -/
+
+/-- the Spec's name reader fails at a length octet ≥ 64 … -/
+theorem readName_long_label (fuel : Nat) (acc : Bytes) (l : UInt8) (t : Bytes) (h : l.toNat > 63) :
+    Spec.readName fuel acc (l :: t) = none := by
+  cases fuel with
+  | zero => rfl
+  | succ f =>
+    have hl : l ≠ 0 := by intro h0; subst h0; simp at h
+    simp [Spec.readName, hl, h]
+
+/-- … both scanners say `.bad` (not "truncated") … -/
+theorem scanName_long_label (fuel : Nat) (l : UInt8) (t : Bytes) (h : l.toNat > 63) :
+    Spec.scanName (fuel + 1) (l :: t) = .bad ∧ scanNameAny (fuel + 1) (l :: t) = .bad := by
+  have hl : l ≠ 0 := by intro h0; subst h0; simp at h
+  simp [Spec.scanName, scanNameAny, hl, h]
+
+/-- … while the model's reader takes the octet as a length like any other: it copies that many octets
+    (`lab`) and goes on with the next length octet (stated for every non-zero `l`, 64..255 included) -/
+theorem dnsReadQ_any_label (l : UInt8) (hl : l ≠ 0) (lab : Bytes) (hlab : lab.length = l.toNat) (acc t : Bytes) :
+    dnsReadQ acc (l :: (lab ++ t)) = dnsReadQ (acc ++ l :: lab) t := by
+  unfold dnsReadQ
+  rw [dnsReadQL_eq, dnsReadQL_eq, rawSplit_cons_label l hl lab hlab]
+  cases rawSplit 0 t with
+  | none => rfl
+  | some x => simp
+
+theorem dnsSkipRR_any_label (l : UInt8) (hl : l ≠ 0) (lab : Bytes) (hlab : lab.length = l.toNat) (t : Bytes) :
+    dnsSkipRR (l :: (lab ++ t)) = dnsSkipRR t := by
+  unfold dnsSkipRR
+  rw [dnsSkipRRL_eq, dnsSkipRRL_eq, rawSplit_cons_label l hl lab hlab]
+  cases rawSplit 0 t with
+  | none => rfl
+  | some x => simp
 
 theorem readQuestions_length : ∀ (k : Nat) (p : Bytes) (qs : List Spec.DQ) (r : Bytes),
     Spec.readQuestions k p = some (qs, r) → qs.length = k := by
@@ -119,131 +172,73 @@ theorem dnsReadQs_length : ∀ (k : Nat) (p : Bytes) (qs : List DnsQ) (r : Bytes
         simp only [Option.some.injEq, Prod.mk.injEq] at h
         rw [← h.1, List.length_cons, ih _ _ _ hqs]
 
-/-- every name the model reads is "NUL-free bytes, then one 0x00" -/
-theorem dnsReadQ_name : ∀ (p acc : Bytes) (q : DnsQ) (r : Bytes), dnsReadQ acc p = some (q, r) →
-    ∃ body, q.name = acc ++ body ++ [0] ∧ ∀ b ∈ body, b ≠ 0 := by
-  intro p
-  induction p with
-  | nil => intro acc q r h; cases h
-  | cons b t ih =>
-    intro acc q r h
-    unfold dnsReadQ at h
-    split at h
-    · split at h
-      · cases h
-      · simp only [Option.some.injEq, Prod.mk.injEq] at h
-        exact ⟨[], by simp [← h.1], by simp⟩
-    · rename_i hb
-      obtain ⟨body, hq, hnz⟩ := ih _ _ _ h
-      refine ⟨b :: body, by simp [hq], ?_⟩
-      intro x hx
-      simp only [List.mem_cons] at hx
-      rcases hx with rfl | hx
-      · exact hb
-      · exact hnz x hx
-
+/-- every name the model reads is a sequence of labels (any octets) closed by the root label -/
 theorem dnsReadQs_names : ∀ (k : Nat) (p : Bytes) (qs : List DnsQ) (r : Bytes),
-    dnsReadQs k p = some (qs, r) → ∀ q ∈ qs, ∃ body, q.name = body ++ [0] ∧ ∀ b ∈ body, b ≠ 0 := by
-  intro k
-  induction k with
-  | zero => intro p qs r h; simp only [dnsReadQs, Option.some.injEq, Prod.mk.injEq] at h; simp [← h.1]
-  | succ k ih =>
-    intro p qs r h
-    unfold dnsReadQs at h
-    split at h
-    · cases h
-    · rename_i q0 r0 hq0
-      split at h
-      · cases h
-      · rename_i hqs
-        simp only [Option.some.injEq, Prod.mk.injEq] at h
-        rw [← h.1]
-        intro q hq
-        simp only [List.mem_cons] at hq
-        rcases hq with rfl | hq
-        · simpa using dnsReadQ_name _ _ _ _ hq0
-        · exact ih _ _ _ hqs q hq
+    dnsReadQs k p = some (qs, r) → ∀ q ∈ qs, IsRaw q.name := dnsReadQs_raw
 
 /-! ### truncation -/
 
-/-- outcome of the Spec's name scanner, in terms of the first zero byte -/
-theorem scanName_spec : ∀ (fuel : Nat) (p : Bytes),
-    (Spec.scanName fuel p = .short → ∀ b ∈ p, b ≠ 0) ∧
-    (∀ r, Spec.scanName fuel p = .done r → ∃ body, p = body ++ 0 :: r ∧ ∀ b ∈ body, b ≠ 0) := by
+/-- outcome of the unrestricted name scanner, in terms of the label-wise reader: `.short` — the reader finds
+    no complete name; `.done r` — the input is an RFC 1035 name followed by `r` -/
+theorem scanNameAny_spec : ∀ (fuel : Nat) (p : Bytes),
+    (scanNameAny fuel p = .short → rawSplit 0 p = none) ∧
+    (∀ r, scanNameAny fuel p = .done r → ∃ n, IsName n ∧ p = n ++ r) := by
   intro fuel
   induction fuel with
-  | zero => intro p; simp [Spec.scanName]
+  | zero => intro p; simp [scanNameAny]
   | succ f ih =>
     intro p
-    unfold Spec.scanName
-    split
-    · simp
-    · rename_i l t
-      split
-      · rename_i hl
-        subst hl
+    cases p with
+    | nil => simp [scanNameAny, rawSplit]
+    | cons l t =>
+      simp only [scanNameAny]
+      by_cases hl : l = 0
+      · subst hl
         refine ⟨by simp, ?_⟩
         intro r hr
-        simp only [Spec.Scan.done.injEq] at hr
+        simp only [if_true, Spec.Scan.done.injEq] at hr
         subst hr
-        exact ⟨[], rfl, by simp⟩
-      · rename_i hl
-        split
-        · simp
-        · split
-          · simp
-          · rename_i hnz
-            have hnz' : ∀ b ∈ t.take l.toNat, b ≠ 0 := by
-              intro b hb h0
-              apply hnz
-              simp only [List.any_eq_true, decide_eq_true_eq]
-              exact ⟨b, hb, h0⟩
-            split
-            · rename_i hsh
-              refine ⟨?_, by simp⟩
-              intro _ b hb
-              simp only [List.mem_cons] at hb
-              rcases hb with rfl | hb
-              · exact hl
-              · rw [List.take_of_length_le (by omega)] at hnz'
-                exact hnz' b hb
-            · obtain ⟨ih1, ih2⟩ := ih (t.drop l.toNat)
-              constructor
-              · intro hs b hb
-                simp only [List.mem_cons] at hb
-                rcases hb with rfl | hb
-                · exact hl
-                · rw [← List.take_append_drop l.toNat t, List.mem_append] at hb
-                  rcases hb with hb | hb
-                  · exact hnz' b hb
-                  · exact ih1 hs b hb
-              · intro r hr
-                obtain ⟨body, hbd, hbz⟩ := ih2 r hr
-                refine ⟨l :: (t.take l.toNat ++ body), ?_, ?_⟩
-                · rw [List.cons_append, List.append_assoc, ← hbd, List.take_append_drop]
-                · intro b hb
-                  simp only [List.mem_cons, List.mem_append] at hb
-                  rcases hb with rfl | hb | hb
-                  · exact hl
-                  · exact hnz' b hb
-                  · exact hbz b hb
+        exact ⟨[0], .root, rfl⟩
+      · rw [if_neg hl]
+        by_cases h63 : l.toNat > 63
+        · simp [h63]
+        · rw [if_neg h63]
+          by_cases hs : t.length < l.toNat
+          · rw [if_pos hs]
+            refine ⟨?_, by simp⟩
+            intro _
+            rw [rawSplit, if_neg (by omega), if_neg hl, rawSplit_short t _ (by omega)]
+            rfl
+          · rw [if_neg hs]
+            obtain ⟨ih1, ih2⟩ := ih (t.drop l.toNat)
+            have hlab : (t.take l.toNat).length = l.toNat := by simp; omega
+            have hsplit := rawSplit_cons_label l hl (t.take l.toNat) hlab (t.drop l.toNat)
+            rw [List.take_append_drop] at hsplit
+            constructor
+            · intro h
+              rw [hsplit, ih1 h]
+              rfl
+            · intro r hr
+              obtain ⟨n, hN, hn⟩ := ih2 r hr
+              refine ⟨l :: (t.take l.toNat ++ n), .label l _ _ hl (by omega) hlab hN, ?_⟩
+              rw [List.cons_append, List.append_assoc, ← hn, List.take_append_drop]
 
-theorem scanQuestions_spec : ∀ (k : Nat) (p : Bytes),
-    (Spec.scanQuestions k p = .short → dnsReadQs k p = none) ∧
-    (∀ r, Spec.scanQuestions k p = .done r → ∃ qs, dnsReadQs k p = some (qs, r)) := by
+theorem scanQuestionsAny_spec : ∀ (k : Nat) (p : Bytes),
+    (scanQuestionsAny k p = .short → dnsReadQs k p = none) ∧
+    (∀ r, scanQuestionsAny k p = .done r → ∃ qs, dnsReadQs k p = some (qs, r)) := by
   intro k
   induction k with
   | zero =>
     intro p
-    simp [Spec.scanQuestions, dnsReadQs]
+    simp [scanQuestionsAny, dnsReadQs]
   | succ k ih =>
     intro p
-    obtain ⟨s1, s2⟩ := scanName_spec (p.length + 1) p
-    unfold Spec.scanQuestions dnsReadQs
+    obtain ⟨s1, s2⟩ := scanNameAny_spec (p.length + 1) p
+    unfold scanQuestionsAny dnsReadQs
     split
     · rename_i r hr
-      obtain ⟨body, rfl, hb⟩ := s2 r hr
-      rw [dnsReadQ_body body hb]
+      obtain ⟨n, hN, rfl⟩ := s2 r hr
+      rw [dnsReadQ_isName hN]
       split
       · simp
       · obtain ⟨i1, i2⟩ := ih (r.drop 4)
@@ -256,26 +251,26 @@ theorem scanQuestions_spec : ∀ (k : Nat) (p : Bytes),
     · rename_i x hx
       constructor
       · intro hs
-        rw [dnsReadQ_noNul p (s1 hs)]
+        rw [dnsReadQ_none_of_rawSplit (s1 hs)]
       · intro r hr
         exact absurd hr (hx r)
 
-theorem scanRRs_spec : ∀ (k : Nat) (p : Bytes),
-    (Spec.scanRRs k p = .short → dnsSkipRRs k p = none) ∧
-    (∀ r, Spec.scanRRs k p = .done r → dnsSkipRRs k p = some r) := by
+theorem scanRRsAny_spec : ∀ (k : Nat) (p : Bytes),
+    (scanRRsAny k p = .short → dnsSkipRRs k p = none) ∧
+    (∀ r, scanRRsAny k p = .done r → dnsSkipRRs k p = some r) := by
   intro k
   induction k with
   | zero =>
     intro p
-    simp [Spec.scanRRs, dnsSkipRRs]
+    simp [scanRRsAny, dnsSkipRRs]
   | succ k ih =>
     intro p
-    obtain ⟨s1, s2⟩ := scanName_spec (p.length + 1) p
-    unfold Spec.scanRRs dnsSkipRRs
+    obtain ⟨s1, s2⟩ := scanNameAny_spec (p.length + 1) p
+    unfold scanRRsAny dnsSkipRRs
     split
     · rename_i r hr
-      obtain ⟨body, rfl, hb⟩ := s2 r hr
-      rw [dnsSkipRR_body body hb]
+      obtain ⟨n, hN, rfl⟩ := s2 r hr
+      rw [dnsSkipRR_isName hN]
       split
       · simp
       · rw [rdBE_slice2 r 8 (by omega)]
@@ -285,8 +280,21 @@ theorem scanRRs_spec : ∀ (k : Nat) (p : Bytes),
     · rename_i x hx
       constructor
       · intro hs
-        rw [dnsSkipRR_noNul p (s1 hs)]
+        rw [dnsSkipRR_none_of_rawSplit (s1 hs)]
       · intro r hr
         exact absurd hr (hx r)
+
+/-- the Spec's own scanners (which additionally reject 0x00 inside a label) a fortiori -/
+theorem scanQuestions_spec (k : Nat) (p : Bytes) :
+    (Spec.scanQuestions k p = .short → dnsReadQs k p = none) ∧
+    (∀ r, Spec.scanQuestions k p = .done r → ∃ qs, dnsReadQs k p = some (qs, r)) :=
+  ⟨fun h => (scanQuestionsAny_spec k p).1 ((scanQuestions_any k p).1 h),
+   fun r h => (scanQuestionsAny_spec k p).2 r ((scanQuestions_any k p).2 r h)⟩
+
+theorem scanRRs_spec (k : Nat) (p : Bytes) :
+    (Spec.scanRRs k p = .short → dnsSkipRRs k p = none) ∧
+    (∀ r, Spec.scanRRs k p = .done r → dnsSkipRRs k p = some r) :=
+  ⟨fun h => (scanRRsAny_spec k p).1 ((scanRRs_any k p).1 h),
+   fun r h => (scanRRsAny_spec k p).2 r ((scanRRs_any k p).2 r h)⟩
 
 end Masscanned.C14
